@@ -1,4 +1,4 @@
-"""Kernel K9 (property C08): what pack_dataclass hands to the CodeBuilder it creates for a nested
+"""Kernel K14 (property C08): what pack_dataclass hands to the CodeBuilder it creates for a nested
 dataclass that has no to_dict method yet (mashumaro/core/meta/types/pack.py).
 
 Translated on every run: the expressions of the keyword arguments `default_dialect=` and
@@ -14,7 +14,7 @@ import os
 
 from py2gallina import HEADER, FnTranslator, Kernel, Unsupported, find_function
 
-NAME = "K9"
+NAME = "K14"
 REPO = os.environ.get("VERIF_REPO", "/repo")
 
 ABSTR = {
